@@ -402,7 +402,7 @@ func genOpts(t *rapid.T) Opts {
 	o := Opts{Sinful: genSinful(t), Birth: rapid.Int64Range(0, 2000000000).Draw(t, "birth"), Seq: rapid.IntRange(0, 100000).Draw(t, "seq"),
 		Enc: rapid.IntRange(0, 2).Draw(t, "enc"), Integ: rapid.IntRange(0, 2).Draw(t, "integ"),
 		Ciphers: rapid.SampledFrom([]string{"", "AES", "AESGCM", "AES,BLOWFISH", "AES, 3DES,BLOWFISH", "AESGCM,AES", "BLOWFISH,AES", "3DES"}).Draw(t, "ciphers"),
-		LifeSecs: rapid.SampledFrom([]int64{0, 0, 1, 60, 3600, 86400, 315360000}).Draw(t, "life"),
+		LifeSecs: rapid.SampledFrom([]int64{0, 0, 45, 60, 3600, 86400, 315360000}).Draw(t, "life"),
 		Version: rapid.SampledFrom([]string{"", "$CondorVersion: 25.4.0 2025-10-31 BuildID: 847437 PackageID: 25.4.0-0.847437 GitSHA: a6507f91 RC $", "24.0.1", "9.0.17"}).Draw(t, "version"),
 		PeerAddr: rapid.SampledFrom([]string{"", "<10.0.0.9:9618>", "schedd.example.org:9618"}).Draw(t, "peeraddr"),
 		Tag:      rapid.SampledFrom([]string{"", "", "tagA"}).Draw(t, "tag"),
